@@ -105,6 +105,17 @@ class PyDriver:
         if op == 'unhex':
             s = bytes.fromhex(t[1]).decode('latin-1') if len(t) > 1 else ''
             return 'ok %d' % self.hexm.hex_to_u64(s)
+        if op == 's2a':
+            a = self.hb.s_to_anchor(int(t[1]), int(t[2]), t[3])
+            i, j = a.offset
+            if float(i) != int(i) or float(j) != int(j):
+                return 'err NonIntegerOffset'
+            return 'ok %d %d %d %d %d' % (a.k, int(i), int(j), a.flips[0], a.flips[1])
+        if op == 'ij2s':
+            return 'ok %d' % self.hb.ij_to_s((bits2f(t[1]), bits2f(t[2])), int(t[3]), t[4])
+        if op == 'q2kj':
+            k, j = self.hb.quaternary_to_kj(int(t[1]), (int(t[2]), int(t[3])))
+            return 'ok %d %d' % (k, j)
         return 'bad-op'
 
 def main():
